@@ -13,7 +13,7 @@ ROOT = os.path.dirname(os.path.dirname(os.path.abspath(__file__)))
 sys.path.insert(0, ROOT)
 from engine import common, mbt, tlc  # noqa: E402
 
-TYS = ["int", "float", "str", "bool", "listint", "model", "dc", "optint"]
+TYS = ["int", "float", "str", "bool", "listint", "model", "dc", "optint", "dupa", "dupb"]
 
 
 def switches() -> Dict[str, bool]:
@@ -74,7 +74,11 @@ def gen_cases(seed: int, max_params: int, per_case: int, budget: int) -> List[Di
                         else:
                             vc = rng.choice(["native", "none", "model", "dc", "conv"])
                         c2.append(dict(c, vc=vc))
-                    cases.append({"sig": s2, "call": c2, "parse": rng.random() < 0.8,
+                    # the caller may also bind a dependency parameter explicitly by keyword: the caller's value wins
+                    for i, p in enumerate(s2, start=1):
+                        if p["dep"] and not any(c["p"] == i for c in c2) and rng.random() < 0.3:
+                            c2.append({"p": i, "how": "kw", "vc": rng.choice(["native", "conv", "none"])})
+                    cases.append({"sig": s2, "call": c2, "parse": rng.random() < 0.8, "late": rng.random() < 0.25,
                                   "fmt": rng.choice(["proxy_json", "proxy_json", "proxy_pickle", "json"]), "seed": len(cases)})
     if len(cases) > budget:
         # keep every (n<=2) case, sample the rest deterministically
